@@ -32,6 +32,8 @@ def pool():
     base = [
         None, True, False,
         0, 0.0, -0.0, 1, 1.0, -1, -1.0, 2, 2.5, -2.5, 3, 7, 0.1, 1e15, 10 ** 15, 1e16, 10 ** 16, 2 ** 53, float(2 ** 53), 2 ** 53 + 1, 1e308, -1e308,
+        # neighbouring doubles a few ulps apart and adjacent large integers: all different, ordered values
+        1.0000000000000002, 1.0000000000000009, 1.0000000000000018, 3.0000000000000004, 1700000000000, 1700000000001, 1700000000000.5, 0.30000000000000004, 0.3,
         5e-324, float('inf'), float('-inf'), 10 ** 400, -10 ** 400, 123456789012345678, 1.2345678901234568e17,
         '', 'a', 'ab', 'b', 'B', '1', '10', '2', 'null', 'true', ' ', 'a ', 'é', 'z',
         datetime.datetime(2020, 1, 1), datetime.date(2020, 1, 1), datetime.datetime(2020, 1, 1, 0, 0, 0, 5000),
